@@ -226,5 +226,5 @@ def run(ctx):
                     "classes with a code-shaped model are also compared with the model (whose agreement with the reference is the theorem)",
                samples=samples, per_class=per_class, modelled_classes=sorted(modelled), model_impl_differences=len(diffs))
     return core.finish(ctx, proofs, cov, violations, known_seen,
-                       assumptions=["theorems (model = reference) exist for deb, rpm, ebuild/alpine, the semver family and legacy openssl; alpm, gem, nuget, conan, maven and the openssl dispatch "
-                                    "are compared with their reference on generated pairs only; pypi (which delegates to the third-party `packaging` library) is compared with a PEP 440 reference"])
+                       assumptions=["theorems (model = reference) exist for deb, rpm, ebuild/alpine, the semver family, legacy openssl, gem, maven (maven.py is a port of the reference) and the openssl dispatch; "
+                                    "alpm, nuget and conan are compared with their reference on generated pairs only; pypi's model is the PEP 440 reference itself, compared with the third-party `packaging` library"])
